@@ -24,7 +24,7 @@ INFO = {
                    "identically-zero denominator or a degenerate pseudoscalar. NOT decided: that the Hitzer forms make "
                    "x*num scalar (a published theorem, trusted), and anything about the arithmetic of Shirokov's "
                    "recursion beyond its dispatch.",
-    "decided": ["C07.dispatch", "C07.closed-forms", "C07.denominator", "C07.div-order", "C07.pow", "C07.zero-division"],
+    "decided": ["C07.dispatch", "C07.closed-forms", "C07.shirokov-degree", "C07.div-order", "C07.pow", "C07.zero-division"],
     "not_decided": ["x * num is a scalar for the closed forms (Hitzer & Sangwine 2017, trusted)",
                     "correctness of the Shirokov iteration and of power_supply/AdditionChains for d >= 6"],
     "assumptions": ["Hitzer & Sangwine, 'Multivector and multivector matrix inverses in real Clifford algebras' (2017)"],
@@ -83,10 +83,11 @@ def dispatch(ctx):
             ctx.ok(c, fn, routine="iterative (Shirokov)" if called else "closed form (Hitzer)")
 
 
-@rule("C07.closed-forms", props=["C07"], min_instances=6, mutants=[
+@rule("C07.closed-forms", props=["C07"], min_instances=18, mutants=[
     ("d=4 selects grades (3,) only", ("codegen", "num = xconj * (x_xconj - 2 * x_xconj.grade(3, 4))", "num = xconj * (x_xconj - 2 * x_xconj.grade(3))")),
     ("d=3 without the reversion", ("codegen", "        num = xconj * ~(x * xconj)", "        num = xconj * (x * xconj)")),
     ("d=2 uses the reverse", ("codegen", "    elif d == 2:\n        num = x.conjugate()", "    elif d == 2:\n        num = x.reverse()")),
+    ("single-grade fast path num = ~y", ("codegen", "    alg = y.algebra\n    if alg.d < 6:\n        num, denom = codegen_hitzer_inv(y, symbolic=True)", "    alg = y.algebra\n    if len(y.grades) == 1:\n        num = ~y\n        denom = (y.sp(num)).e\n    elif alg.d < 6:\n        num, denom = codegen_hitzer_inv(y, symbolic=True)")),
     ("d=5 grade set (1, 3)", ("codegen", "num = combo * (x_combo - 2 * x_combo.grade(1, 4))", "num = combo * (x_combo - 2 * x_combo.grade(1, 3))")),
 ])
 def closed_forms(ctx):
@@ -119,6 +120,30 @@ def closed_forms(ctx):
         else:
             ctx.violation(c, f"the closed-form numerator in {d} dimensions denotes [{num!r}], the Hitzer-Sangwine form is "
                              f"[{want!r}]", fn, got=repr(num), expected=repr(want))
+        # the same through the dispatcher, in both grade cells (a shortcut keyed on the operand's grades must
+        # still produce an inverse: compare with the closed form)
+        for cell in ((2,), (0, 2)):
+            cq = f"codegen.codegen_inv#numerator,d={d},grades={cell}"
+            it2 = tree_interp(repo, d)
+            it2.tvar_facts = {"grades": {"x": cell}}
+            try:
+                out2 = it2.run("codegen.codegen_inv", [x], {"symbolic": True})
+            except NoValue as exc:
+                raise Unknown(cq, str(exc), fn)
+            if out2[0] == "raise":
+                ctx.violation(cq, f"x.inv() raises {out2[1]} in {d} dimensions for an operand of grades {cell}", fn)
+                continue
+            n2 = out2[1][0] if isinstance(out2[1], tuple) else None
+            if isinstance(n2, (int, float)):
+                n2 = T.num(n2)
+            if not isinstance(n2, T):
+                raise Unknown(cq, f"numerator evaluates to {n2!r}", fn)
+            if n2 == want:
+                ctx.ok(cq, fn)
+            else:
+                ctx.violation(cq, f"in {d} dimensions, for an operand of grades {cell}, x.inv() uses the numerator [{n2!r}] "
+                                  f"instead of the closed form [{want!r}]: for a non-blade operand of that grade pattern "
+                                  f"x * num is not a scalar, so the result is not an inverse", fn)
         # denominator: scalar coefficient of sp(x, num) for the same num
         want_den = T.scalar(("coef", T.opaque("sp", (x, num)).key(), "e"))
         c2 = f"{q}#denominator,d={d}"
@@ -129,6 +154,39 @@ def closed_forms(ctx):
         else:
             ctx.violation(c2, f"the denominator [{denom!r}] is not the scalar part of sp(x, num) for the returned numerator: "
                               f"num/denom is then not an inverse even when x*num is scalar", fn)
+
+
+@rule("C07.shirokov-degree", props=["C07"], min_instances=6, mutants=[
+    ("matrix size from the non-degenerate part only", ("codegen", "    n = 2 ** ((alg.d + 1) // 2)", "    n = 2 ** ((alg.p + alg.q + 1) // 2)")),
+    ("matrix size rounds down", ("codegen", "    n = 2 ** ((alg.d + 1) // 2)", "    n = 2 ** (alg.d // 2)")),
+])
+def shirokov_degree(ctx):
+    """The iterative inverse runs N = 2^ceil(d/2) steps (Shirokov: the degree of the characteristic polynomial in
+    every Clifford algebra of dimension d, degenerate or not)."""
+    import ast as _ast
+    from ..astx import ceval, walk_shallow as _ws
+    q = "codegen.codegen_shirokov_inv"
+    fn = ctx.func(q)
+    assigns = [n for n in _ws(fn) if isinstance(n, _ast.Assign) and len(n.targets) == 1 and un(n.targets[0]) == "n"]
+    if len(assigns) != 1:
+        raise Unknown(q, "cannot find the single assignment of the iteration count n", fn)
+    expr = assigns[0].value
+    for (p_, q_, r_) in ((6, 0, 0), (4, 1, 1), (4, 0, 2), (3, 0, 3), (2, 0, 5), (4, 4, 0), (3, 3, 3)):
+        d = p_ + q_ + r_
+        c = f"{q}#n,signature=({p_},{q_},{r_})"
+        env = {"alg.d": d, "alg.p": p_, "alg.q": q_, "alg.r": r_, "x.algebra.d": d, "x.algebra.p": p_, "x.algebra.q": q_,
+               "x.algebra.r": r_}
+        try:
+            got = ceval(expr, env)
+        except NoValue as exc:
+            raise Unknown(c, f"iteration count {un(expr)} is not an arithmetic function of the dimensions: {exc}", assigns[0])
+        want = 2 ** ((d + 1) // 2)
+        if got == want:
+            ctx.ok(c, assigns[0], n=got)
+        else:
+            ctx.violation(c, f"in R({p_},{q_},{r_}) the iteration runs n = {got} steps ({un(expr)}), but the characteristic "
+                             f"polynomial has degree 2^ceil(d/2) = {want}: the recursion stops before the determinant is "
+                             f"reached and the result is not an inverse", assigns[0])
 
 
 @rule("C07.div-order", props=["C07"], min_instances=3, mutants=[
